@@ -63,6 +63,12 @@ CHECKS = {
  "C07": dict(technique="CrossHair symbolic execution of Node.can_replace/can_replace_with/can_append/check, NodeType.valid_content/create_checked, Schema.node (child indices, fragment sub-range, type index, mark bits, mutation choice symbolic) against the validator derived from the spec dictionaries",
              text="For every non-leaf node of every catalogue document as parent, every catalogue fragment and sub-range, every index range, candidate type and mark subset, each predicate answers true exactly when the resulting child sequence matches the parent's content expression (own regex translation) and the parent allows the inserted marks; check() raises exactly on the single-mutation variants the validator rejects (content, forbidden marks, non-canonical mark sets); the checked constructors fail exactly when valid_content is false.",
              ref="4/C07"),
+ "C03": dict(technique="CrossHair symbolic execution of get_map of the eight step classes and of every step emitted by one symbolic high-level Transform operation; the map's ranges are compared with the token-level change",
+             text="For primitive steps with symbolic fields and for every step recorded by each of 21 Transform operations with symbolic arguments on catalogue documents, the size changes by the sum of (new - old) over the map's ranges, every old token outside the replaced ranges is found unchanged at the mapped index (map-less mark/attr steps: same kind, unit and type), and the real map() sends that index there.",
+             ref="4/C03"),
+ "C04": dict(technique="CrossHair symbolic execution of one (and two chained) Transform operations after a fixed prefix - inductive step over histories - plus invert() of primitive steps; alignment invariant and exact undo asserted on every path, also after a rejected operation",
+             text="From a Transform that already holds three steps, each of 21 operation kinds with symbolic arguments (and pairs of chained operations) leaves steps/docs/maps aligned and the old entries untouched, every recorded step re-applied to its recorded document gives the next one, inverting the new steps in reverse restores the pre-document exactly and each inverted step maps like the inverted map; primitive replace/attr/doc-attr/node-mark steps undo exactly under the catalogue schemas. Histories of arbitrary length follow by the (unmechanised) induction argument stated in the evidence assumptions.",
+             ref="4/C04"),
 }
 CHECKS_END = None
 
